@@ -164,7 +164,7 @@ def r4(ctx):
         if sc.get("connect") == 0 and sc.get("loop") == 0 and sc.get("frame") == 1 and names.count("WebSocket()") >= 1:
             first_close = True
             per["server-close-frame"].append((names.count("WebSocket()") == 1 and "sleep" not in names and names.count("on_close") == 1 and o.kind == "return", o))
-        if sc.get("connect") == 0 and sc.get("loop") == 3:
+        if sc.get("connect") == 0 and sc.get("loop") in (3, 4):
             per["application-close"].append((names.count("WebSocket()") == 1 and "sleep" not in names and names.count("on_close") == 1 and o.kind == "return", o))
     for k, lst in per.items():
         if not lst:
